@@ -40,3 +40,28 @@ def facts_of_variant(patch, repo=REPO):
         return f, 'ok', ''
     finally:
         shutil.rmtree(d, ignore_errors=True)
+
+
+import contextlib
+
+
+@contextlib.contextmanager
+def variant(patch, repo=REPO):
+    """context manager: yields (Facts or None, status, message, scratch dir); the scratch copy lives until the block ends"""
+    d = scratch_copy(repo)
+    try:
+        okp, msg = apply_patch(d, patch)
+        if not okp:
+            yield None, 'stale-patch', msg, d
+            return
+        out = os.path.join(d, 'facts.json')
+        r = subprocess.run(['sh', os.path.join(VERIF, 'jammlint', 'run.sh'), d, out], capture_output=True, text=True)
+        if r.returncode != 0 or not os.path.exists(out):
+            yield None, 'does-not-compile', (r.stdout + r.stderr)[-3000:], d
+            return
+        f = load_facts(out)
+        f.src_hash = 'variant:' + os.path.basename(patch)
+        f.repo_dir = d
+        yield f, 'ok', '', d
+    finally:
+        shutil.rmtree(d, ignore_errors=True)
